@@ -1,7 +1,6 @@
 package main
 
 import (
-	"context"
 	"fmt"
 	"math/rand"
 	"strings"
@@ -45,24 +44,6 @@ func (g *gate) hook(prefix string) func(kind, key string) {
 
 func (g *gate) set(on bool) { g.mu.Lock(); g.on = on; g.mu.Unlock() }
 
-func waitKey(ch chan string, d time.Duration) (string, bool) {
-	select {
-	case k := <-ch:
-		return k, true
-	case <-time.After(d):
-		return "", false
-	}
-}
-
-func waitDone(ch chan struct{}, d time.Duration) bool {
-	select {
-	case <-ch:
-		return true
-	case <-time.After(d):
-		return false
-	}
-}
-
 // suffixRace runs one gated schedule; returns its id ("" if the schedule could not be driven).
 func suffixRace(r *ev.Run, e *etcdx.Etcd, rng *rand.Rand, n int) string {
 	root := fmt.Sprintf("/c05/s%02d_%04d", r.Shard, n)
@@ -103,16 +84,48 @@ func suffixRace(r *ev.Run, e *etcdx.Etcd, rng *rand.Rand, n int) string {
 	}
 	A.M.EnableLeader()
 	step("m0 is PD leader")
+	// From here on every suffix transaction of either member parks at the client boundary; one
+	// parked transaction at a time is released, following the pattern chosen for this schedule.
+	patterns := []string{"ABAB", "ABBA", "AABB", "BABA", "BAAB", "BBAA"}
+	pattern := patterns[n%len(patterns)]
+	type side struct {
+		name   string
+		g      *gate
+		done   chan struct{}
+		parked bool
+		fin    bool
+		key    string
+	}
+	sa := &side{name: "m0", g: gA, done: make(chan struct{})}
+	sb := &side{name: "m1", g: gB, done: make(chan struct{})}
+	settle := func(x *side) bool {
+		if x.parked || x.fin {
+			return true
+		}
+		select {
+		case k := <-x.g.parked:
+			x.parked, x.key = true, strings.TrimPrefix(k, prefix)
+			step("%s read the suffixes and is about to create %s; parked", x.name, x.key)
+		case <-x.done:
+			x.fin = true
+			step("%s's checker finished", x.name)
+		case <-time.After(30 * time.Second):
+			r.Inconclusive("suffix add-on: %s neither reached a suffix transaction nor finished", x.name)
+			return false
+		}
+		return true
+	}
 	gA.set(true)
-	doneA := make(chan struct{})
-	go func() { defer close(doneA); A.AM.ClusterDCLocationChecker() }()
-	keyA, ok := waitKey(gA.parked, 20*time.Second)
-	if !ok {
+	gB.set(true)
+	go func() { defer close(sa.done); A.AM.ClusterDCLocationChecker() }()
+	if !settle(sa) {
+		return ""
+	}
+	if !sa.parked {
 		r.Inconclusive("suffix add-on: the old leader's suffix transaction was never reached")
 		return ""
 	}
-	step("m0 (leader) read the suffixes and is about to create %s; parked", strings.TrimPrefix(keyA, prefix))
-	// PD leader change
+	// PD leader change while the old leader's transaction is in flight
 	A.Resign()
 	step("m0 resigned (lease revoked)")
 	if err := B.Campaign(true); err != nil {
@@ -121,40 +134,38 @@ func suffixRace(r *ev.Run, e *etcdx.Etcd, rng *rand.Rand, n int) string {
 	}
 	B.M.EnableLeader()
 	step("m1 is PD leader")
-	gB.set(true)
-	doneB := make(chan struct{})
-	go func() { defer close(doneB); B.AM.ClusterDCLocationChecker() }()
-	keyB, ok := waitKey(gB.parked, 20*time.Second)
-	if !ok {
-		r.Inconclusive("suffix add-on: the new leader's suffix transaction was never reached")
-		return ""
-	}
-	step("m1 (leader) read the suffixes and is about to create %s; parked", strings.TrimPrefix(keyB, prefix))
-	// release order chosen by the seed: both leaders have read the (empty) suffix map
-	order := []string{"A,B", "B,A"}[n%2] // which key each leader creates first is pd's map order, not ours
-	same := keyA == keyB
-	relA := func() {
-		gA.set(false) // m0's later transactions run free
-		gA.release <- struct{}{}
-		if !waitDone(doneA, 20*time.Second) {
-			r.Inconclusive("suffix add-on: the old leader's checker did not finish")
+	go func() { defer close(sb.done); B.AM.ClusterDCLocationChecker() }()
+	var released []string
+	pi := 0
+	for {
+		if !settle(sa) || !settle(sb) {
+			return ""
 		}
-		step("m0's transaction released; its checker finished")
-	}
-	relB := func() {
-		gB.set(false)
-		gB.release <- struct{}{}
-		if !waitDone(doneB, 20*time.Second) {
-			r.Inconclusive("suffix add-on: the new leader's checker did not finish")
+		if sa.fin && sb.fin {
+			break
 		}
-		step("m1's transaction released; its checker finished")
-	}
-	if order == "A,B" {
-		relA()
-		relB()
-	} else {
-		relB()
-		relA()
+		var pick *side
+		for pick == nil && pi < len(pattern) {
+			x := sa
+			if pattern[pi] == 'B' {
+				x = sb
+			}
+			pi++
+			if x.parked {
+				pick = x
+			}
+		}
+		if pick == nil {
+			if sa.parked {
+				pick = sa
+			} else {
+				pick = sb
+			}
+		}
+		released = append(released, pick.name+":"+pick.key)
+		step("release %s's transaction on %s", pick.name, pick.key)
+		pick.parked = false
+		pick.g.release <- struct{}{}
 	}
 	B.Resign()
 	// committed history of the suffix keys
@@ -189,13 +200,12 @@ func suffixRace(r *ev.Run, e *etcdx.Etcd, rng *rand.Rand, n int) string {
 		}
 		done[key] = true
 		r.Violation(key, f.what+" (old PD leader's create-if-absent suffix transaction committed after the PD leadership had changed)",
-			map[string]interface{}{"schedule": steps, "release_order": order, "suffix_key_history": sev, "suffix_txns": txns})
+			map[string]interface{}{"schedule": steps, "release_order": released, "suffix_key_history": sev, "suffix_txns": txns})
 	}
 	if len(fs) == 0 && n == 0 {
 		r.Sample(map[string]interface{}{"mode": "suffix add-on", "schedule": steps, "suffix_key_history": sev, "suffix_txns": txns})
 	}
-	_ = context.Background
-	return fmt.Sprintf("suffix-race|old:%s|new:%s|same=%v|%s", strings.TrimPrefix(keyA, prefix), strings.TrimPrefix(keyB, prefix), same, order)
+	return "suffix-race|" + strings.Join(released, ",")
 }
 
 func suffixAddon(r *ev.Run, rng *rand.Rand, n int) {
@@ -213,5 +223,6 @@ func suffixAddon(r *ev.Run, rng *rand.Rand, n int) {
 		r.Eval(1)
 		r.Distinct(id)
 		r.Count("addon_gated_schedules", 1)
+		r.Count("addon_"+id, 1)
 	}
 }
